@@ -1,7 +1,12 @@
 import Bluge.Numeric
 import BlugeGen.C10
 /-! # C10 bridge: the definitions translated from the Go source (`BlugeGen.C10`) equal the
-hand-written reference model (`Bluge.Numeric`) on ALL inputs. -/
+hand-written reference model (`Bluge.Numeric`) on ALL inputs.
+
+Theorems that take a byte slice carry the hypothesis `p.length < 2 ^ 63`: Go's `len` is an `int`, which the
+translation renders as `BitVec.ofNat 64 p.length`; a Lean `List` of 2^63 or more elements is not a Go slice
+(on such a list `len` would wrap and the translated `0 < len(p)` test would differ from the model's
+pattern match). Every slice the Go runtime can hold satisfies the hypothesis. -/
 namespace Bluge.C10
 open Bluge.Numeric Bluge.Go
 
@@ -194,5 +199,270 @@ theorem gen_incBytes (bs : List Byte) (h : bs.length < 2 ^ 63) :
   rw [hi']
   simp
 
+
+/-! ## 1. NewPrefixCodedInt64 -/
+
+/-- one base-128 digit -/
+def digit (sb : BitVec 64) : Byte := (sb &&& 0x7f#64).setWidth 8
+
+theorem encode_eq (v : I64) (shift : Nat) :
+    encode v shift = BitVec.ofNat 8 (0x20 + shift) ::
+      (List.range (nChars shift)).map fun i => digit (((v ^^^ signBit) >>> shift) >>> (7 * (nChars shift - 1 - i))) := rfl
+
+theorem enc_loop (k : Nat) : ∀ (fuel : Nat) (in_ shift : BitVec 64) (prealloc rv rest : List Byte) (err : Bool)
+    (size sb : BitVec 64), k < fuel → k < rv.length → rv.length ≤ 2 ^ 64 →
+    BlugeGen.C10.NewPrefixCodedInt64Prealloc.loop1 fuel in_ shift prealloc rv rest err (BitVec.ofNat 64 k) size sb =
+      .ok (in_, shift, prealloc,
+        rv.take 1 ++ (List.range k).map (fun i => digit (sb >>> (7 * (k - 1 - i)))) ++ rv.drop (k + 1),
+        rest, err, 0#64, size, sb >>> (7 * k)) := by
+  induction k with
+  | zero =>
+    intro fuel in_ shift prealloc rv rest err size sb hf hk hlen
+    obtain ⟨f, rfl⟩ : ∃ f, fuel = f + 1 := ⟨fuel - 1, by omega⟩
+    unfold BlugeGen.C10.NewPrefixCodedInt64Prealloc.loop1
+    simp [BitVec.ult]
+    cases rv with
+    | nil => simp at hk
+    | cons a t => simp
+  | succ k ih =>
+    intro fuel in_ shift prealloc rv rest err size sb hf hk hlen
+    obtain ⟨f, rfl⟩ : ∃ f, fuel = f + 1 := ⟨fuel - 1, by omega⟩
+    unfold BlugeGen.C10.NewPrefixCodedInt64Prealloc.loop1
+    have hk1 : (BitVec.ofNat 64 (k + 1)).toNat = k + 1 := by simp; omega
+    have hult : BitVec.ult 0#64 (BitVec.ofNat 64 (k + 1)) = true := by
+      simp only [BitVec.ult, hk1]; simp
+    have hi : BitVec.ofNat 64 (k + 1) - 1#64 = BitVec.ofNat 64 k := by
+      apply BitVec.eq_of_toNat_eq; simp [BitVec.toNat_sub]; omega
+    have hset : ∀ v, Go.setIdx rv (BitVec.ofNat 64 (k + 1)) v = .ok (rv.set (k + 1) v) := by
+      intro v; unfold Go.setIdx; rw [hk1, if_pos hk]
+    simp only [hult, if_true, hset, Res.ok_bind, hi]
+    rw [ih f _ _ _ _ _ _ _ _ (by omega) (by simp; omega) (by simpa using hlen)]
+    simp only [Res.ok.injEq, Prod.mk.injEq, true_and]
+    have hsh : ∀ m, sb >>> 7#64 >>> m = sb >>> (7 + m) := by
+      intro m; rw [BitVec.ushiftRight_eq' sb 7#64, BitVec.shiftRight_add]; rfl
+    refine ⟨?_, ?_⟩
+    · rw [List.take_set_of_le (by omega), List.range_succ, List.map_append]
+      have hd : List.drop (k + 1) (rv.set (k + 1) (BitVec.setWidth 8 (sb &&& 127#64))) =
+          BitVec.setWidth 8 (sb &&& 127#64) :: List.drop (k + 1 + 1) rv := by
+        have hA : (rv.take (k + 1)).length = k + 1 := by simp; omega
+        rw [List.set_eq_take_append_cons_drop, if_pos hk, List.drop_left' hA]
+      rw [hd]
+      have hm : List.map (fun i => digit (sb >>> 7#64 >>> (7 * (k - 1 - i)))) (List.range k) =
+          List.map (fun i => digit (sb >>> (7 * (k + 1 - 1 - i)))) (List.range k) := by
+        apply List.map_congr_left
+        intro i hi
+        have : i < k := List.mem_range.mp hi
+        rw [hsh]; congr 2; omega
+      rw [hm]
+      simp [digit]
+    · rw [hsh]; congr 1; omega
+
+
+theorem nChars_le (s : Nat) : nChars s ≤ 10 := by unfold nChars; omega
+
+theorem gen_nChars (s : BitVec 64) (h : s.toNat ≤ 63) :
+    ((63#64 - s) / 7#64) + 1#64 = BitVec.ofNat 64 (nChars s.toNat) := by
+  apply BitVec.eq_of_toNat_eq
+  have h1 : (63#64 - s).toNat = 63 - s.toNat := by
+    rw [BitVec.toNat_sub]; simp; omega
+  rw [BitVec.toNat_add, BitVec.toNat_udiv, h1]
+  simp [nChars]
+
+theorem gen_prealloc_nil (v s : BitVec 64) :
+    BlugeGen.C10.NewPrefixCodedInt64Prealloc v s [] =
+      if s.toNat > 63 then .err else .ok (encode v s.toNat, []) := by
+  unfold BlugeGen.C10.NewPrefixCodedInt64Prealloc
+  by_cases hs : s.toNat > 63
+  · have : BitVec.ult 63#64 s = true := by simp [BitVec.ult]; omega
+    simp only [this, if_true, if_pos hs]
+  · have : BitVec.ult 63#64 s = false := by simp [BitVec.ult]; omega
+    simp only [this, Bool.false_eq_true, if_false, if_neg hs]
+    rw [gen_nChars s (by omega), encode_eq]
+    have hn := nChars_le s.toNat
+    generalize hnn : nChars s.toNat = n at hn
+    have hsz : (BitVec.ofNat 64 n + 1#64).toNat = n + 1 := by
+      rw [BitVec.toNat_add]; simp; omega
+    have hsle : BitVec.sle (BitVec.ofNat 64 n + 1#64) (Go.len ([] : List Byte)) = false := by
+      rw [BitVec.sle_eq_decide, BitVec.toInt_eq_toNat_of_lt (by omega), hsz]
+      simp [Go.len]
+    simp only [hsle, Bool.false_eq_true, if_false, Res.pure_eq, Res.ok_bind, Go.make, hsz]
+    have hset : Go.setIdx (List.replicate (n + 1) 0#8) 0#64 (32#8 + BitVec.setWidth 8 s) =
+        .ok ((32#8 + BitVec.setWidth 8 s) :: List.replicate n 0#8) := by
+      simp [Go.setIdx, List.replicate_succ]
+    rw [hset]
+    simp only [Res.ok_bind]
+    rw [enc_loop n 11 _ _ _ _ _ _ _ _ (by omega) (by simp) (by simp; omega)]
+    simp only [Res.ok_bind, Res.ok.injEq, Prod.mk.injEq, and_true]
+    have hhdr : 32#8 + BitVec.setWidth 8 s = BitVec.ofNat 8 (32 + s.toNat) := by
+      apply BitVec.eq_of_toNat_eq; simp
+    have hshift : (v ^^^ 9223372036854775808#64) >>> s = (v ^^^ signBit) >>> s.toNat := by
+      rw [BitVec.ushiftRight_eq']; rfl
+    rw [hhdr, hshift]
+    simp
+
+
+/-- bridge: the translated `NewPrefixCodedInt64` is the reference `encode` (error iff shift > 63) -/
+theorem gen_encode (v : BitVec 64) (s : BitVec 64) :
+    BlugeGen.C10.NewPrefixCodedInt64 v s =
+      if s.toNat > 63 then .err else .ok (encode v s.toNat) := by
+  unfold BlugeGen.C10.NewPrefixCodedInt64
+  rw [gen_prealloc_nil]
+  by_cases hs : s.toNat > 63
+  · simp only [if_pos hs]; rfl
+  · simp only [if_neg hs]; rfl
+
+theorem gen_encode? (v : BitVec 64) (s : BitVec 64) :
+    (BlugeGen.C10.NewPrefixCodedInt64 v s).toOption = encode? v s.toNat := by
+  rw [gen_encode, encode?]
+  by_cases hs : s.toNat > 63
+  · simp only [if_pos hs]; rfl
+  · simp only [if_neg hs]; rfl
+
+/-- bridge: `MustNewPrefixCodedInt64` panics exactly where `NewPrefixCodedInt64` returns an error -/
+theorem gen_mustEncode (v : BitVec 64) (s : BitVec 64) :
+    BlugeGen.C10.MustNewPrefixCodedInt64 v s =
+      if s.toNat > 63 then .crash else .ok (encode v s.toNat) := by
+  unfold BlugeGen.C10.MustNewPrefixCodedInt64
+  rw [gen_encode]
+  by_cases hs : s.toNat > 63
+  · simp only [if_pos hs]; rfl
+  · simp only [if_neg hs]; rfl
+
+
+/-! ## 3. ValidPrefixCodedTermBytes -/
+
+theorem sdiv7_small (x : BitVec 64) (h : x.toNat ≤ 63) : BitVec.sdiv x 7#64 = x / 7#64 := by
+  have hx : x.msb = false := by
+    rw [BitVec.msb_eq_decide]; simp; omega
+  have h7 : (7#64 : BitVec 64).msb = false := by decide
+  rw [BitVec.sdiv_eq, hx, h7]
+  rfl
+
+theorem gen_valid (p : List Byte) (h : p.length < 2 ^ 63) :
+    BlugeGen.C10.ValidPrefixCodedTermBytes p =
+      .ok ((validTerm p).1, BitVec.ofNat 64 (validTerm p).2) := by
+  unfold BlugeGen.C10.ValidPrefixCodedTermBytes
+  rw [slt_zero_len p h]
+  cases p with
+  | nil => simp [validTerm]
+  | cons b t =>
+    have hget : Go.getIdx (b :: t) 0#64 = .ok b := by simp [Go.getIdx]
+    simp only [List.length_cons, Nat.zero_lt_succ, decide_true, if_true, hget, Res.ok_bind, Res.pure_eq, validTerm]
+    by_cases hlo : b.toNat < 32
+    · have : BitVec.ult b 32#8 = true := by simp [BitVec.ult]; omega
+      simp [this, hlo]
+    · have h1 : BitVec.ult b 32#8 = false := by simp [BitVec.ult]; omega
+      by_cases hhi : b.toNat > 95
+      · have : BitVec.ult 95#8 b = true := by simp [BitVec.ult]; omega
+        simp [h1, this, hhi]
+      · have h2 : BitVec.ult 95#8 b = false := by simp [BitVec.ult]; omega
+        simp only [h1, h2, Bool.false_eq_true, if_false, Res.ok_bind]
+        have hor : ¬(b.toNat < 32 ∨ b.toNat > 32 + 63) := by omega
+        rw [if_neg hor]
+        have hS : BitVec.setWidth 64 (b - 32#8) = BitVec.ofNat 64 (b.toNat - 32) := by
+          apply BitVec.eq_of_toNat_eq; simp; omega
+        have hSn : (BitVec.ofNat 64 (b.toNat - 32)).toNat = b.toNat - 32 := by simp; omega
+        rw [hS, sdiv7_small _ (by rw [BitVec.toNat_sub]; simp; omega), gen_nChars _ (by omega), hSn]
+        have hn := nChars_le (b.toNat - 32)
+        generalize nChars (b.toNat - 32) = n at hn
+        have hne : (Go.len (b :: t) != BitVec.ofNat 64 n + 1#64) = (t.length + 1 != n + 1) := by
+          have h1 : (Go.len (b :: t)).toNat = t.length + 1 := len_toNat _ (by omega)
+          have h2 : (BitVec.ofNat 64 n + 1#64).toNat = n + 1 := by
+            rw [BitVec.toNat_add]; simp; omega
+          rw [Bool.eq_iff_iff]
+          simp only [bne_iff_ne, ne_eq]
+          rw [← BitVec.toNat_inj, h1, h2]
+        rw [hne]
+        by_cases hl : t.length + 1 = n + 1
+        · simp [hl]
+        · have : ¬ t.length = n := by omega
+          simp [this]
+
+
+/-! ## 4. newRange / splitInt64Range -/
+
+/-- the reference `TermRange` as the generated structure -/
+def toGen (r : TermRange) : BlugeGen.C10.termRange := ⟨r.startTerm, r.endTerm⟩
+
+theorem gen_newRange (lo hi s : BitVec 64) :
+    BlugeGen.C10.newRange lo hi s =
+      if s.toNat > 63 then .crash else .ok (toGen (newRange lo hi s.toNat)) := by
+  unfold BlugeGen.C10.newRange
+  simp only [gen_mustEncode]
+  by_cases hs : s.toNat > 63
+  · simp only [if_pos hs]; rfl
+  · simp only [if_neg hs, Res.ok_bind, Res.pure_eq, BitVec.shiftLeft_eq']; rfl
+
+theorem ite_ok_bind {α β : Type} (c : Bool) (a b : α) (f : α → Res β) :
+    ((if c = true then Res.ok a else Res.ok b) >>= f) = f (if c = true then a else b) := by
+  cases c <;> rfl
+
+theorem cond_iff (A : Prop) [Decidable A] (a b c d : Bool) (h : a = decide A) :
+    ((a || b || c || d) = true) ↔ (A ∨ b = true ∨ c = true ∨ d = true) := by
+  subst h; simp [or_assoc]
+
+theorem split_loop (step : Nat) (hstep1 : 1 ≤ step) (hstep2 : step < 2 ^ 63) (fuel : Nat) :
+    ∀ (lo hi : BitVec 64) (rv : List BlugeGen.C10.termRange) (shift : Nat),
+      65 ≤ shift + fuel → shift ≤ 63 →
+      ∃ a b c d, BlugeGen.C10.splitInt64Range.loop1 fuel lo hi (BitVec.ofNat 64 step) rv (BitVec.ofNat 64 shift) =
+        .ok (a, b, c, rv ++ (splitLoop fuel lo hi shift step).map toGen, d) := by
+  induction fuel with
+  | zero => intro lo hi rv shift h1 h2; omega
+  | succ fuel ih =>
+    intro lo hi rv shift h1 h2
+    have hst : (BitVec.ofNat 64 step).toNat = step := by simp; omega
+    have hsh : (BitVec.ofNat 64 shift).toNat = shift := by simp; omega
+    have hsum : BitVec.ofNat 64 shift + BitVec.ofNat 64 step = BitVec.ofNat 64 (shift + step) := by
+      apply BitVec.eq_of_toNat_eq; simp
+    have hsumn : (BitVec.ofNat 64 (shift + step)).toNat = shift + step := by simp; omega
+    unfold BlugeGen.C10.splitInt64Range.loop1 splitLoop
+    simp only [hsum, BitVec.shiftLeft_eq', hst, hsh, hsumn, Res.pure_eq]
+    generalize ((1#64 <<< step - 1#64) <<< shift : BitVec 64) = M
+    generalize (1#64 <<< (shift + step) : BitVec 64) = D
+    have hule : BitVec.ule 64#64 (BitVec.ofNat 64 (shift + step)) = decide (shift + step ≥ 64) := by
+      simp only [BitVec.ule, hsumn]; rfl
+    have hnr : ∀ a b, BlugeGen.C10.newRange a b (BitVec.ofNat 64 shift) = .ok (toGen (newRange a b shift)) := by
+      intro a b; rw [gen_newRange, hsh, if_neg (by omega)]
+    simp only [cond_iff _ _ _ _ _ hule, hnr, Res.ok_bind]
+    generalize (lo &&& M != 0#64) = L
+    generalize (hi &&& M != M) = U
+    cases L <;> cases U <;> simp only [if_true, if_false, Bool.false_eq_true]
+    all_goals
+      split
+      · exact ⟨lo, hi, BitVec.ofNat 64 step, BitVec.ofNat 64 shift, by simp⟩
+      · rename_i hc
+        have hlt : shift + step < 64 := by omega
+        obtain ⟨a, b, c, d, hih⟩ := ih _ _ _ (shift + step) (by omega) (by omega)
+        exact ⟨a, b, c, d, by rw [hih]; simp⟩
+
+
+/-- bridge: the translated `splitInt64Range` with any precision step in [1, 2^63) is the reference `split`;
+in particular the loop fuel 65 is never exhausted. -/
+theorem gen_split_step (lo hi : BitVec 64) (step : Nat) (hstep1 : 1 ≤ step) (hstep2 : step < 2 ^ 63) :
+    BlugeGen.C10.splitInt64Range lo hi (BitVec.ofNat 64 step) = .ok ((split lo hi step).map toGen) := by
+  unfold BlugeGen.C10.splitInt64Range split
+  by_cases h : hi.slt lo = true
+  · simp only [h, if_true]; rfl
+  · simp only [h, if_false, Bool.false_eq_true]
+    obtain ⟨a, b, c, d, hl⟩ := split_loop step hstep1 hstep2 65 lo hi [] 0 (by omega) (by omega)
+    have hmk : (Go.make default 0#64 : List BlugeGen.C10.termRange) = [] := rfl
+    rw [hmk, hl]
+    simp
+
+/-- bridge for the precision step bluge uses (4) -/
+theorem gen_split (lo hi : BitVec 64) :
+    BlugeGen.C10.splitInt64Range lo hi 4#64 = .ok ((split lo hi 4).map toGen) :=
+  gen_split_step lo hi 4 (by omega) (by omega)
+
+
+/-! ## non-vacuity / sanity examples (tests, not claims) -/
+
+example : ([0x20#8, 1#8] : List Byte).length < 2 ^ 63 := by decide
+example : BlugeGen.C10.PrefixCoded_Shift [0x24#8, 1#8] = .ok 4#64 := by decide
+example : BlugeGen.C10.incrementBytes [1#8, 0xff#8] = .ok [2#8, 0#8] := by decide
+example : BlugeGen.C10.incrementBytes [0xff#8, 0xff#8] = .ok [0#8, 0#8] := by decide
+example : (BlugeGen.C10.ValidPrefixCodedTermBytes [0x5c#8, 1#8]) = .ok (true, 60#64) := by decide
+example : (BlugeGen.C10.ValidPrefixCodedTermBytes [0x60#8, 1#8]) = .ok (false, 0#64) := by decide
+example : (1 : Nat) ≤ 4 ∧ 4 < 2 ^ 63 := by decide
 
 end Bluge.C10
